@@ -166,6 +166,10 @@ def scenarios():
     add("echo2", [client([("open", 0), ("write", 0, A), ("open", 1), ("writelines", 1, [A, b"|", A[:9]]),
                           ("eof", 1), ("write", 0, b"tail"), ("eof", 0), ("read2", 0, 1)])])
     add("ping2", [client([("ping2",), ("ping",)])])
+    # three pings with staggered, overlapping lifetimes (started less than / about / more than a round trip apart)
+    add("ping_staggered", [client([("spawn_ping",), ("nap", (0.0005, 0.0, 0.0025)), ("spawn_ping",),
+                                   ("nap", (0.0015, 0.0005, 0.003)), ("spawn_ping",), ("nap", (0.001, 0.0, 0.004)),
+                                   ("spawn_ping",), ("join_pings",), ("ping",)])])
     add("cid", [client([("ping",), ("change_cid",), ("ping",)] + ECHO)])
     # several rotations in a row (each announces a retirement in a datagram of its own) and more later: with one
     # of those datagrams lost the server sees RETIRE_CONNECTION_ID frames out of order
@@ -529,6 +533,14 @@ class World:
             except ConnectionError:
                 e[2] = "ConnectionError"
                 raise
+        elif k == "spawn_ping":
+            # a ping awaited by a task of its own: its lifetime overlaps whatever the script does next
+            t = self.loop.create_task(self.aw_quiet(c.name, "ping", p.ping(), p))
+            self.tasks.append(t)
+            c.slots.setdefault("pings", []).append(t)
+        elif k == "join_pings":
+            for t in c.slots.get("pings", []):
+                await t
         elif k == "ping2":
             res = await asyncio.gather(self.aw(c.name, "ping", p.ping(), p),
                                        self.aw(c.name, "ping", p.ping(), p),
